@@ -23,7 +23,7 @@ LOAD_MW = {"light": 0.1, "moderate": 0.4}          # per 20 kV bus, x (1 + 0.1 j
 LV_FACTOR = 0.25                                   # load on the 0.4 kV bus behind the transformer(s)
 LINE_KM = {"a": 2.0, "b": 1.5, "d": 2.5, "c": 1.0, "e": 1.8}
 SHIFT = {"none": 0.0, "t0": 0.0, "t150": 150.0}
-VM_SLACK, VM_PV, P_PV = 1.02, 1.01, 0.3
+VM_SLACK, VM_PV, P_PV = 1.02, 1.02, 0.3
 LINES = ["a", "b", "d", "c", "e"]                  # row order of net.line per island
 LINE_ENDS = {"a": (0, 1), "b": (1, 2), "d": (0, 2), "c": (2, 3), "e": (1, 3)}
 TRAFOS = ["c", "e"]                                # row order of net.trafo per island (hv = LINE_ENDS[x][0])
@@ -225,7 +225,8 @@ def items_of(case):
 def thorough_cfg(text):
     rep = {'TrafoKinds = {"none", "t150"}': 'TrafoKinds = {"none", "t0", "t150"}',
            'Loads = {"moderate"}': 'Loads = {"light", "moderate"}',
-           'SlackPos2 = {0}': 'SlackPos2 = {0, 1}',
+           'PVsA = {FALSE}': 'PVsA = {FALSE, TRUE}',
+           'TrafoKindsA = {"none"}': 'TrafoKindsA = {"none", "t150"}',
            'PV2s = {FALSE}': 'PV2s = {FALSE, TRUE}'}
     for a, b in rep.items():
         if a not in text:
@@ -259,7 +260,7 @@ def model_cases(tier, seed, v):
         c = cases.setdefault(k, {"c": jsonable(list(net["c"])), "cva": bool(net["cva"]), "jit": -1, "feat": None, "runs": {}})
         if step["kind"] == "classify":
             c["feat"] = jsonable(step["feat"])
-        else:
+        elif step["kind"] == "solve":
             c["runs"][step["s"]] = {"req": jsonable(step["plan"]["req"]), "res0": bool(step["res0"])}
     out = [cases[k] for k in sorted(cases)]
     for c in out:
@@ -284,11 +285,14 @@ def run(tier, seed, replay=None):
     v = Verdict("C06", tier, seed, "exploration")
     use_repo()
     extra = {}
+    import time
+    t0 = time.time()
     if replay:
         cases = [replay["case"]]
         states = trans = 1
     else:
         cases, states, trans, extra = model_cases(tier, seed, v)
+    t1 = time.time()
     items = [it for c in cases for it in items_of(c)]
     per = len(items) // max(1, len(cases))
     runs = pool_map(observe, items, procs=PROCS, chunksize=max(1, per))
@@ -300,8 +304,11 @@ def run(tier, seed, replay=None):
             if r["s"] != s:
                 raise MachineryError("run/result order mismatch")
             c["runs"][s] = {x: y for x, y in r.items() if x != "s"}
+    t2 = time.time()
     obs = [{"c": c["c"], "cva": c["cva"], "runs": c["runs"]} for c in cases]
     fails, st = tlc_obs("SolversObs", "SolversObs.cfg", obs, chunk=1500, workers=PROCS)
+    t3 = time.time()
+    extra["wall_split_s"] = {"model_tlc": round(t1 - t0, 1), "implementation_runs": round(t2 - t1, 1), "observation_tlc": round(t3 - t2, 1)}
     ndiv = {}
     for name, i in fails:
         c = cases[i]
